@@ -373,6 +373,7 @@ def r3_text_equals_program(chk: Check):
 
 
 def r4_order(chk: Check):
+    union_returns_matched_alternative(chk)
     tree = chk.tree
     f = tree.func("launcherfinder.specs", "RequirementUnion.match")
     g = CFG(f.node)
@@ -453,6 +454,17 @@ def r5_conjunction_per_dimension(chk: Check):
     ok = all(got.get(k) == v for k, v in want.items()) and "self.cpu" not in got and g.on_every_path([n for n in g.live if n.kind == "stmt" and isinstance(n.ast, ast.Assign) and src(n.ast.targets[0]) == "self.cpu.memory"])
     chk.require(ok, chk.fkey(f, "maximum of each dimension"), f"the conjunction merges the operands with {got}; expected the maximum of memory, of cores and of duration separately (each on every path): "
                 "a request `cpu(mem=32G) & cpu(cores=4)` must keep both demands", loc)
+
+
+def union_returns_matched_alternative(chk: Check):
+    """`a | b | c` nests unions: the requirement reported by a union match is the simple requirement that matched, as for the textual form"""
+    tree = chk.tree
+    f = tree.func("launcherfinder.specs", "RequirementUnion.match")
+    mk = [c for c in fn_calls(f.node) if tail(c) == "MatchRequirement" and len(c.args) == 2]
+    chk.min_instances(len(mk), 1, "MatchRequirement built by RequirementUnion.match")
+    for c in mk:
+        chk.require(src(c.args[1]).endswith(".requirement"), chk.fkey(f, "reports the matched simple requirement"),
+                    f"`{src(c)}` reports the member of the union, which is itself a union for three or more alternatives: `match(host).requirement` is then not the alternative that matched", chk.loc(f.module, c))
 
 
 RULES = [
